@@ -21,7 +21,7 @@ func (c05) ID() string { return "C05" }
 
 func (c05) Budget(tier string) int {
 	if tier == "thorough" {
-		return 200000
+		return 600000
 	}
 	return 30000
 }
